@@ -381,7 +381,7 @@ def deep_lift_shap(model, X, args=None, target=0,  batch_size=32,
 
 	try:
 		model.apply(_register_hooks)
-	except Exception as e:
+	except BaseException as e:
 		model.apply(_clear_hooks)
 		raise(e)
 
